@@ -36,7 +36,15 @@ func newCtlWith(srv *fakeapi.Server, seed int64, level int, period time.Duration
 	ctx, cancel := context.WithCancel(context.Background())
 	var b kcache.Builder
 	if seed%2 == 0 {
-		b = kcache.NewBuilder().Context(ctx).Log(pert.Log()).Client(client.NewClient(srv.List, srv.Watch))
+		var cl client.Client = client.NewClient(srv.List, srv.Watch)
+		if seed%4 == 0 {
+			// the same client assembled from its two halves
+			cl = struct {
+				client.ListClient
+				client.WatchClient
+			}{client.NewListClient(srv.List), client.NewWatchClient(srv.Watch)}
+		}
+		b = kcache.NewBuilder().Context(ctx).Log(pert.Log()).Client(cl)
 		b.Lister().RefreshPeriod(period)
 		if f != nil {
 			b = b.Filter(f)
